@@ -356,8 +356,11 @@ class Ctx:
             ev["coverage"]["notes"] = self.notes
         ev["coverage"]["known_findings_seen"] = [k for k, _ in self.known_hits]
         os.makedirs(os.path.join(VERIF, "evidence"), exist_ok=True)
-        if self.replay is None:
+        if self.replay is None and os.path.realpath(self.repo) == "/repo":
             json.dump(ev, open(os.path.join(VERIF, "evidence", self.pid + ".json"), "w"), indent=1, default=str)
+        else:
+            # replays and runs against another tree (VERIF_REPO, mutants) never touch the committed evidence
+            json.dump(ev, open(os.path.join(self.work, "evidence.json"), "w"), indent=1, default=str)
         for key, what in self.known_hits:
             print("KNOWN-FINDING: property=%s %s (%s)" % (self.pid, key, what))
         for key, path, found, what in self.violations:
